@@ -7,7 +7,8 @@
    by indentation) inverts the writer on every page the pipeline produces. *)
 From Coq Require Import String List.
 From CMinx Require Import Base.Str Model.Parser Model.Writer Model.DocTypes Model.Aggregator
-     Model.Pipeline Proofs.WriterFacts Proofs.RstStructure Proofs.PageFacts.
+     Model.Pipeline Proofs.WriterFacts Proofs.RstStructure Proofs.PageFacts
+     Base.PySem Gen.PySource Proofs.SourceMatch.
 Import ListNotations.
 
 (* every entry renders to exactly one directive *)
@@ -90,3 +91,23 @@ Theorem C07_value_with_newline_escapes_refuted :
   ltac:(let t := type of page_top_blocks_refuted in exact t).
 Proof. exact page_top_blocks_refuted. Qed.
 Print Assumptions C07_value_with_newline_escapes_refuted.
+
+(* ---- tie by translation: Gen/PySource.v is regenerated from the CURRENT Python source by
+   translators/py2coq.py (statement-by-statement rendering of the function into Gallina over the
+   combinators of Base/PySem.v); the model function is proved equal to it for all arguments ---- *)
+Theorem C07_directive_heading_matches_source :
+  forall d name args,
+    dir_heading d name args
+    = PySource.DirectiveHeading_build_heading_string name (indent d) (PySource.Directive_format_arguments args).
+Proof. exact dir_heading_matches_source. Qed.
+Print Assumptions C07_directive_heading_matches_source.
+
+Theorem C07_paragraph_matches_source :
+  forall d t, para_text d t = PySource.Paragraph_build_text_string t (indent d).
+Proof. exact para_text_matches_source. Qed.
+Print Assumptions C07_paragraph_matches_source.
+
+Theorem C07_field_matches_source :
+  forall d n t, field_text d n t = PySource.Field_build_field_string n t (indent d).
+Proof. exact field_text_matches_source. Qed.
+Print Assumptions C07_field_matches_source.
